@@ -12,7 +12,8 @@ PROPS = {
         title='Every diagram the library hands back is well-typed',
         level='proof',
         vc=CORE_VC + ['monoidal.Diagram.__init__[scan]', 'monoidal.Diagram.then', 'monoidal.Diagram.tensor',
-                      'monoidal.Diagram.__getitem__', 'rewriting.interchange', 'lemma:canary:then.len'],
+                      'monoidal.Diagram.__getitem__', 'rewriting.interchange', 'rewriting.interchange[far]', 'rewriting.normalize',
+                      'lemma:canary:then.len'],
         sym=[], rtc='C01',
         level_text='Proof of the representation invariant wf (boxes/offsets scan from dom to cod, each box finds its '
                    'domain at its offset, the layer view agrees) for the constructor scan (establishes wf or raises, '
@@ -297,7 +298,7 @@ PROPS = {
         title='Interchange moves exactly one box past a disconnected neighbour',
         level='proof',
         vc=['cat.Arrow.then', 'cat.Arrow.__getitem__', 'cat.Arrow.__init__', 'cat.Id.__init__',
-            'monoidal.Layer.__init__', 'monoidal.Diagram.__init__', 'rewriting.interchange'],
+            'monoidal.Layer.__init__', 'monoidal.Diagram.__init__', 'rewriting.interchange', 'rewriting.interchange[far]'],
         sym=[], rtc='C05',
         level_text='Proof: the real source of rewriting.interchange (adjacent case: index check, normalisation of (i, j), '
                    'three geometric branches, recomputed offsets and layers) and of the cat/monoidal constructors and '
@@ -305,10 +306,14 @@ PROPS = {
                    'functional contracts written from the interchanger axiom; every obligation (result equals the axiom '
                    'instance, frame, offsets, representation invariant, refusal iff connected, IndexError iff out of '
                    'range, no other exception) is discharged by z3/cvc5 for all diagrams, all indices and both flags. '
-                   'Distant moves (|i-j|>1) are covered by the bounded stand-in only.',
+                   'Distant moves (|i-j|>1): both recursive loops are verified with a relational invariant against the '
+                   'call-site contract of the adjacent move: after k steps the moving box sits at i-/+k, the boxes it passed '
+                   'keep their order one place back, every layer outside the interval is untouched, dom / cod / length and the '
+                   'representation invariant are kept; IndexError only for out-of-range indices.',
         level_note='Trusted: pyvc + solvers; built-in list/slice semantics as encoded; L-ichg (an interchanger-axiom '
                    'instance denotes the same morphism under every monoidal functor) is mathematics, assumed; the '
-                   'recursion over distant moves is bounded (rtc: all diagrams <= 3/4 boxes, all index pairs).',
+                   'exactness of the refusal of a distant move (refused iff some box on the way is wired to the moving box) follows '
+                   'from the exact refusal of each adjacent step and is exercised by the bounded driver (all diagrams <= 3/4 boxes, all index pairs).',
         technique='VC generation from the real AST + z3/cvc5 (sequence theory, Ackermannised), functional contracts; '
                   'bounded run-time contracts as stand-in for distant moves'),
 }
